@@ -254,6 +254,33 @@ func assemble(c *Case, raws [][]int, blocks []int, ctl map[int][]Op, r *lib.Rng)
 		c.Ops = append(c.Ops, o)
 	}
 	c.Ops = append(c.Ops, ctl[len(blocks)]...)
+	c.Lag = r.Pick([]int{0, 0, 1, 2, 2, 3})
+}
+
+// AddGaps makes the source lose frames before some blocks (C01 only: C02 speaks about contiguous sources): the
+// block's first frame and time stamp jump by the gap and the block reports droppedFrames (Lancero style), or the
+// block reports dropped frames that the source filled in, without any gap (Abaco style).
+func AddGaps(r *lib.Rng, c *Case) {
+	seen := 0
+	for i := range c.Ops {
+		if c.Ops[i].Op != "B" {
+			continue
+		}
+		seen++
+		if seen == 1 || !r.Chance(1, 3) {
+			continue
+		}
+		g := int64(r.Pick([]int{1, 2, 3, 7, 37, c.Nsamp, 5000, 1 << 20}))
+		switch r.Intn(5) {
+		case 0:
+			c.Ops[i].Drop = int(g) // filled in by the source: reported, no gap
+		case 1:
+			c.Ops[i].Gap = g // a gap the source did not report
+		default:
+			c.Ops[i].Gap, c.Ops[i].Drop = g, int(g)
+		}
+	}
+	c.Note += "+gaps"
 }
 
 // GenRandom: DESIGN section 7 C01 — generic streams, boundary-hunting partitions, all trigger mixtures.
@@ -746,4 +773,26 @@ func GenTailReconf(r *lib.Rng, id int64, tier string) Case {
 	}
 	assemble(&c, [][]int{toRaw(x, signed)}, blocks, ctl, r)
 	return c
+}
+
+// CorpusC01: histories with frames lost between blocks and late reading of the published records (C01 only).
+func CorpusC01() []Case {
+	edge := TS{Edge: true, ERising: true, ELevel: 100, DelayNs: 250e6, LLevel: 4000}
+	// 37 frames lost before the second block; one pulse pending in the tail of the first block, one 30 samples
+	// into the second block
+	x := flat(300, 1000)
+	addPulse(x, 92, 2000, 20)
+	addPulse(x, 130, 2000, 20)
+	ops := blocksOf(x, 100, 100, 100)
+	ops[1].Gap, ops[1].Drop = 37, 37
+	auto := TS{Auto: true, DelayNs: delayNs(25, 10000), ELevel: 100, ERising: true, LLevel: 4000}
+	y := make([]int, 400)
+	for i := range y {
+		y[i] = 1000 + (i*7)%500 // every record differs
+	}
+	return []Case{
+		{Npre: 10, Nsamp: 40, Rate: 10000, F0: 1000, T0: 1e9, Chans: []ChanCfg{{Restored: &edge}}, Ops: ops, Note: "frames lost before a block"},
+		{Npre: 4, Nsamp: 16, Rate: 10000, F0: 0, T0: 1e9, Lag: 3, Chans: []ChanCfg{{Restored: &auto}},
+			Ops: blocksOf(y, 50, 50, 50, 50, 50, 50, 50, 50), Note: "records read three blocks after they were published"},
+	}
 }
